@@ -71,6 +71,17 @@ def layoutOk : Nat → List Fmt → Bool
 /-- `-8`-masking of a negative stack offset, on depths: `-(d) & -8 = -(roundUp8 d)` -/
 def roundUp8 (n : Nat) : Nat := (n + 7) / 8 * 8
 
+/-- `LocalVar.__set_name__`: `owner.stack -= size; owner.stack &= -size`, on depths -/
+def localDepth (d : Nat) (f : Fmt) : Nat := (d + f.size + (f.size - 1)) / f.size * f.size
+
+/-- `-owner.stack` after the local variables declared before the Dict -/
+def localsDepth (fs : List Fmt) : Nat := fs.foldl localDepth 0
+
+/-- `TheDict.update/lookup` wrap the helper call in `save_registers([1..5])`: an owned `r1` is kept in the
+lowest free register, which is `r0` unless `r0` is owned; the call clobbers it and `r0` is released at
+the end, so the following `r0 != 0` is refused (`AssembleError: register r0 has no value`). -/
+def dictCallAssembles (r0Owned r1Owned : Bool) : Bool := r0Owned || !r1Owned
+
 structure DictDecl where
   keyFmts : List Fmt
   valFmts : List Fmt
